@@ -191,10 +191,21 @@ def _origins(M, did, allocs, depth=0):
         if r.cv == 0 or "NULL" in "".join(r.mac) or r.k == "CallExpr" or r.d.get("name") == "tmpp":
             continue
         off = None
-        if r.k == "BinaryOperator" and r.d["op"] == "+":
-            r, off = r.kids[0].strip(casts=True), r.kids[1]
+        sign_terms = []                 # (sign, node) of the integer terms added to the pointer
+        while r.k == "BinaryOperator" and r.d["op"] in ("+", "-"):
+            l_, r_ = r.kids[0].strip(casts=True), r.kids[1].strip(casts=True)
+            if l_.ty.endswith("*") or "[" in l_.ty:
+                sign_terms.append((1 if r.d["op"] == "+" else -1, r.kids[1]))
+                r = l_
+            elif r.d["op"] == "+" and (r_.ty.endswith("*") or "[" in r_.ty):
+                sign_terms.append((1, r.kids[0]))
+                r = r_
+            else:
+                break
+        if sign_terms:
+            off = sign_terms
         if r.k == "UnaryOperator" and r.d["op"] == "&" and r.kids[0].strip().k == "ArraySubscriptExpr":
-            off = r.kids[0].strip().kids[1] if off is None else None
+            off = (off or []) + [(1, r.kids[0].strip().kids[1])]
             r = r.kids[0].strip().kids[0].strip(casts=True)
         if r.k != "DeclRefExpr" or depth > 2:
             raise AnalysisBroken("R10e: origin of a new-gap vector not understood: %s" % rhs.text()[:50])
@@ -224,14 +235,23 @@ def r10e(ck, prog):
     if not oa or not ob:
         raise AnalysisBroken("R10e: no allocation found for the new-gap vectors %s / %s" % (na, nb))
     where = site(prog, M, "%s,%s" % (na, nb))
-    ck.inst("R10e", where, "make_seq: %s comes from %s, %s from %s" % (na, [(k, key, o.text() if o is not None else None) for k, key, o in oa], nb,
-                                                                       [(k, key, o.text() if o is not None else None) for k, key, o in ob]), prog.config)
+    fmt = lambda oo: [(k, key, " ".join(("+" if sg > 0 else "-") + nd.text() for sg, nd in o) if o else None) for k, key, o in oo]
+    ck.inst("R10e", where, "make_seq: %s comes from %s, %s from %s" % (na, fmt(oa), nb, fmt(ob)), prog.config)
     for ka, keya, offa in oa:
         for kb, keyb, offb in ob:
             if keya != keyb:
                 continue
-            la = lin(offa, subst) if offa is not None else Lin(0)
-            lb = lin(offb, subst) if offb is not None else Lin(0)
+            def tolin(o):
+                if o is None:
+                    return Lin(0)
+                acc_ = Lin(0)
+                for sg, nd in o:
+                    l_ = lin(nd, subst)
+                    if l_ is None:
+                        return None
+                    acc_ = acc_.add(l_, sg)
+                return acc_
+            la, lb = tolin(offa), tolin(offb)
             if la is None or lb is None:
                 raise AnalysisBroken("R10e: offsets of %s / %s inside %s are not affine" % (na, nb, keya))
             # need |lb - la| >= path[0] + 1
